@@ -8,7 +8,7 @@ from ..runner import Outcome
 LEVEL = "proof"
 ASSUMPTIONS = ["edits are the mapping operations set / add / delete (all addressing forms); mutating a stored column object's fields behind the record's back is outside the property"]
 NAMES = ["a", "b", "c"]
-IMPL_ONLY = ("restore", "copy", "popitem", "clear", "huge")     # operations the model has no counterpart of (object identity, resource limits)
+IMPL_ONLY = ("restore", "copy", "popitem", "clear", "huge", "warnings-as-errors")     # operations the model has no counterpart of (object identity, resource limits)
 
 
 def gen_op(rng, names=NAMES, idxs=(0, 1, 2, 3, 5, -1, None, None, None)):
@@ -256,6 +256,7 @@ def run_history(ops, start=None):
     steps = []
     problems = [(-1, b) for b in coherence(rec)]
     initial = observe(rec, oids)
+    strict_warnings = False
     recs = [rec]          # the record and the shallow copies made of it so far (copy.copy shares what the class shares)
     for n, o in enumerate(ops):
         if problems:
@@ -263,53 +264,59 @@ def run_history(ops, start=None):
         rec = recs[o.get("on", 0) % len(recs)]
         before = [observe(r, oids) for r in recs]
         exc = None
+        import warnings
         try:
-            if o["k"] == "copy":
-                import copy
-                recs.append(copy.copy(rec))
-                before.append(observe(recs[-1], oids))
-            elif o["k"] == "popitem":
-                rec.popitem()
-            elif o["k"] == "clear":
-                rec.clear()
-            elif o["k"] == "huge":
-                # an index no list can be padded up to: the operation must fail and leave the record as it was
-                from maflib.column import MafColumnRecord
-                c = MafColumnRecord(o["name"], "v", None if o["via"] == "int" else o["index"])
-                keep.append(c)
-                oids[id(c)] = offset + n
-                if o["via"] == "add":
-                    rec.add(c)
-                elif o["via"] == "int":
-                    rec[o["index"]] = c
-                else:
-                    rec[o["name"]] = c
-            elif o["k"] == "restore":
-                # store again a column OBJECT that the record already holds (col = rec[x]; col.value = ...; rec[x] = col)
-                live = [c for c in rec._MafRecord__columns_list if c is not None]
-                if live:
-                    c = live[o["slot"] % len(live)]
-                    if o.get("edit"):
-                        c.value = "edited"
-                    via = o["via"]
-                    if via == "add":
-                        rec.add(c)
-                    elif via == "name":
-                        rec[c.key] = c
-                    elif via == "int":
-                        rec[c.column_index if c.column_index is not None else 0] = c
-                    else:
-                        rec[c] = c
-            elif o["k"] in ("set", "add"):
-                c = column_of(o["col"])
-                oids[id(c)] = offset + n
-                keep.append(c)
-                if o["k"] == "add":
-                    rec.add(c)
-                else:
-                    rec[py_key(o["key"], keep)] = c
-            else:
-                del rec[py_key(o["key"], keep)]
+          with warnings.catch_warnings():
+              if strict_warnings:
+                  warnings.simplefilter("error")      # the application runs with -W error: a warning is an exception like any other
+              if o["k"] == "warnings-as-errors":
+                  strict_warnings = True
+              elif o["k"] == "copy":
+                  import copy
+                  recs.append(copy.copy(rec))
+                  before.append(observe(recs[-1], oids))
+              elif o["k"] == "popitem":
+                  rec.popitem()
+              elif o["k"] == "clear":
+                  rec.clear()
+              elif o["k"] == "huge":
+                  # an index no list can be padded up to: the operation must fail and leave the record as it was
+                  from maflib.column import MafColumnRecord
+                  c = MafColumnRecord(o["name"], "v", None if o["via"] == "int" else o["index"])
+                  keep.append(c)
+                  oids[id(c)] = offset + n
+                  if o["via"] == "add":
+                      rec.add(c)
+                  elif o["via"] == "int":
+                      rec[o["index"]] = c
+                  else:
+                      rec[o["name"]] = c
+              elif o["k"] == "restore":
+                  # store again a column OBJECT that the record already holds (col = rec[x]; col.value = ...; rec[x] = col)
+                  live = [c for c in rec._MafRecord__columns_list if c is not None]
+                  if live:
+                      c = live[o["slot"] % len(live)]
+                      if o.get("edit"):
+                          c.value = "edited"
+                      via = o["via"]
+                      if via == "add":
+                          rec.add(c)
+                      elif via == "name":
+                          rec[c.key] = c
+                      elif via == "int":
+                          rec[c.column_index if c.column_index is not None else 0] = c
+                      else:
+                          rec[c] = c
+              elif o["k"] in ("set", "add"):
+                  c = column_of(o["col"])
+                  oids[id(c)] = offset + n
+                  keep.append(c)
+                  if o["k"] == "add":
+                      rec.add(c)
+                  else:
+                      rec[py_key(o["key"], keep)] = c
+              else:
+                  del rec[py_key(o["key"], keep)]
         except Exception as e:  # noqa
             exc = exc_name(e)
         after = [observe(r, oids) for r in recs]
@@ -405,7 +412,9 @@ def run(ctx):
     rng_r = ctx.rng("hist", "restore")
     for _ in range(ctx.scale(400, 5000)):
         h = []
-        flavour = rng_r.choice(["restore", "restore", "mapping", "copy", "huge"])
+        flavour = rng_r.choice(["restore", "restore", "mapping", "copy", "huge", "warnings"])
+        if flavour == "warnings":
+            h.append({"k": "warnings-as-errors"})
         for _k in range(rng_r.randrange(2, 9)):
             x = rng_r.random()
             if flavour == "restore" and x < 0.35:
@@ -482,6 +491,8 @@ def show_op(o):
     on = " (on shallow copy %d)" % o["on"] if o.get("on") else ""
     if o["k"] == "del":
         return "del rec[%s]%s" % (key(o["key"]), on)
+    if o["k"] == "warnings-as-errors":
+        return "warnings.simplefilter('error')   -> from here on a warning is an exception"
     if o["k"] == "copy":
         return "copy.copy(rec)   -> one more record to edit and to keep coherent"
     if o["k"] in ("popitem", "clear"):
